@@ -21,6 +21,7 @@ type GuardSpec struct {
 	WritesOnly bool            // only writes (stores, map updates, deletes) need the guard
 	ReadLockOK bool            // a read lock suffices for reads (writes always need the exclusive lock)
 	SameBase   bool            // the lock must be a field of the same object as the accessed field
+	AnyModeOK  bool            // a read lock suffices for writes too (the field has a second, exclusive guard)
 }
 
 // fieldAccess is one access to a struct field.
@@ -309,7 +310,7 @@ func (g *guardChecker) check(r *Result, rule string, spec GuardSpec, funcs []*ss
 				r.Instance(rule, site, pos, "exempt", "object allocated in this function (not yet shared)", false)
 				continue
 			}
-			readOK := spec.ReadLockOK && !a.Write
+			readOK := (spec.ReadLockOK && !a.Write) || spec.AnyModeOK
 			if lf != nil {
 				if spec.SameBase {
 					lp := accessPath(baseOf(a.Addr)) + "." + lastSeg(spec.Lock)
